@@ -251,8 +251,15 @@ func (g *xmlGen) element(depth int, parentScope map[string]string) *Node {
 			nd = g.t.Pick(2, 4, 3)
 			kindW = []int{3, 6, 7, 1}
 		}
+		if g.cfg.NSMix && depth == 1 && nd == 0 {
+			nd = 1
+		}
 		for i := 0; i < nd; i++ {
-			switch g.t.Pick(kindW...) {
+			k := g.t.Pick(kindW...)
+			if g.cfg.NSMix && depth == 1 && i == 0 {
+				k = 0 // the document element declares a prefix
+			}
+			switch k {
 			case 3: // the legal explicit declaration of the xml prefix
 				if hasDecl(e.Decls, "xml") {
 					continue
@@ -306,6 +313,14 @@ func (g *xmlGen) element(depth int, parentScope map[string]string) *Node {
 		}
 	}
 	e.Prefix = cands[g.t.Draw(len(cands))]
+	if g.cfg.NSMix && len(cands) > 1 && g.t.Bool(3, 4) {
+		// prefixed (namespaced) parents with unprefixed children, level by level
+		if depth%2 == 1 {
+			e.Prefix = cands[1+g.t.Draw(len(cands)-1)]
+		} else {
+			e.Prefix = ""
+		}
+	}
 	e.Local = g.name()
 	e.Space = scope[e.Prefix] // "" when unprefixed and no default
 	// attributes
